@@ -145,6 +145,9 @@ def step(t, op, backing):
     if kind == "drop":
         dict.pop(backing, op[1], None)
         return None
+    if kind == "put":
+        dict.__setitem__(backing, op[1], op[2])
+        return None
     if kind == "budget":
         backing.budget = op[1]
         return None
@@ -216,6 +219,8 @@ def cop(op):
         return "ORootNode"
     if k == "drop":
         return f"ODrop {cb(op[1])}"
+    if k == "put":
+        return f"OPut {cb(op[1])} {cb(op[2])}"
     if k == "budget":
         return f"OBudget {copt(op[1], cnat)}"
     if k == "at_root":
@@ -331,3 +336,62 @@ def classify_trie(backing, root):
             kinds["leaf"] += 1
     walk(root)
     return kinds
+
+
+def reachable(backing, root):
+    """hashes of the stored nodes reachable from root (through the raw dict)"""
+    import rlp
+    from trie.constants import BLANK_NODE_HASH
+    from trie.utils.nodes import get_node_type
+    seen = set()
+
+    def walk(ref):
+        if ref == b"" or ref == BLANK_NODE_HASH:
+            return
+        if isinstance(ref, list):
+            node = ref
+        else:
+            if ref in seen:
+                return
+            if not dict.__contains__(backing, ref):
+                return
+            seen.add(ref)
+            node = rlp.decode(dict.__getitem__(backing, ref))
+        if node == b"":
+            return
+        t = get_node_type(node)
+        if t == 3:
+            for c in node[:16]:
+                walk(c)
+        elif t == 2:
+            walk(node[1])
+    walk(root)
+    return seen
+
+
+def gen_writes(rng, n, long_pool=None):
+    """n writes and the resulting mapping"""
+    m, ops = {}, []
+    for _ in range(n):
+        w = gen_write(rng, m.keys(), long_pool)
+        apply_model(m, w)
+        ops.append(w)
+    return ops, m
+
+
+def tuplify(o):
+    o = list(o)
+    if o[0] == "batch":
+        return ("batch", [tuplify(x) for x in o[1]], o[2])
+    if o[0] == "at_root":
+        return ("at_root", o[1], [tuplify(x) for x in o[2]])
+    if o[0] == "fromproof":
+        return ("fromproof", o[1], o[2], o[3])
+    return tuple(o)
+
+
+def eval_hexary(prop, name, cases, outs_list, shard):
+    """cases: list of (prune, ops); evaluates the D-level model on them. Returns (mismatch idx, errors, nshards, terms)"""
+    terms = [coq_case(p, ops, outs) for (p, ops), outs in zip(cases, outs_list)]
+    mism, errs, nsh = C.eval_cases(prop, name, IMPORTS, "hexary_run", "bool * list hop", terms, shard=shard)
+    return mism, errs, nsh, terms
